@@ -3,6 +3,8 @@
 // Case: log <tag> <minsev> <filter id> <members> <ops>      |     log <tag> <minsev> TYPES
 #include "common.hpp"
 
+#include <thread>
+
 #ifndef NV_MIN
 #error "NV_MIN must be defined (0..5)"
 #endif
@@ -89,6 +91,29 @@ template <typename R>
 using F6 = nl::filter::or_filter<nl::filter::and_filter<T0<R>, T1<R>>, T2<R>>;
 template <typename R>
 using F7 = nl::filter::null_filter<R>;
+// user-written filters that look at the tag of the record (mute one subsystem)
+template <typename R>
+struct MuteT
+{
+    typedef R record_type;
+    bool filter(R& r) const
+    {
+        return r.tag() != "T";
+    }
+};
+template <typename R>
+struct Mutet
+{
+    typedef R record_type;
+    bool filter(R& r) const
+    {
+        return r.tag() != "t";
+    }
+};
+template <typename R>
+using F8 = MuteT<R>;
+template <typename R>
+using F9 = nl::filter::and_filter<T0<R>, Mutet<R>>;
 
 using Sink1 = RecSink<0>;
 using Sink3 = nl::sink::sequence<RecSink<0>, RecSink<1>, RecSink<2>>;
@@ -352,20 +377,28 @@ static void run_ops(const std::string& ops)
     for (auto& tok : nv::splitc(ops, ';'))
     {
         auto t = nv::splitc(tok, ':');
-        if (t[0] == "thr")
+        if (t[0] == "thr" || t[0] == "thrx")
         {
+            // thrx: the threshold is configured by another thread (joined before the next statement)
             auto s = static_cast<sl>(std::stoi(t[2]));
-            switch (std::stoi(t[1]))
-            {
-            case 0:
-                T0<R>::set_severity(s);
-                break;
-            case 1:
-                T1<R>::set_severity(s);
-                break;
-            default:
-                T2<R>::set_severity(s);
-            }
+            int which = std::stoi(t[1]);
+            auto set = [s, which] {
+                switch (which)
+                {
+                case 0:
+                    T0<R>::set_severity(s);
+                    break;
+                case 1:
+                    T1<R>::set_severity(s);
+                    break;
+                default:
+                    T2<R>::set_severity(s);
+                }
+            };
+            if (t[0] == "thrx")
+                std::thread(set).join();
+            else
+                set();
         }
         else if (t[0] == "ov")
         {
@@ -397,12 +430,14 @@ static void run_ops(const std::string& ops)
                 overlap1<L, sl::fatal>(sb, ta, ia, tb, ib);
             }
         }
-        else if (t[0] == "st")
+        else if (t[0] == "st" || t[0] == "stx")
         {
+            // stx: the statement is executed by another thread (joined before the next op)
             int sev = std::stoi(t[1]);
             std::string tagstr = t[2] == "~" ? std::string() : nv::unhex(t[2]);
             const char* tag = t[2] == "~" ? nullptr : tagstr.c_str();
             auto items = parse_items(t[4]);
+            auto run = [&] {
             switch (sev)
             {
             case 0:
@@ -423,6 +458,11 @@ static void run_ops(const std::string& ops)
             default:
                 statement<L, sl::fatal>(tag, items, t[3]);
             }
+            };
+            if (t[0] == "stx")
+                std::thread(run).join();
+            else
+                run();
         }
     }
 }
@@ -483,6 +523,12 @@ static std::string handle(const std::vector<std::string>& f)
         break;
     case 6:
         run_filter<F6>(members, ops);
+        break;
+    case 8:
+        run_filter<F8>(members, ops);
+        break;
+    case 9:
+        run_filter<F9>(members, ops);
         break;
     default:
         run_filter<F7>(members, ops);
